@@ -251,7 +251,7 @@ async def eval_real(expr, asg, fc=None, hint_keys=()):
         return {"err": "exception:" + type(e).__name__}
     return {"err": None, "outcome": (B2S[r.requirement_constraints_fulfilled], B2S[r.requirement_is_conditional]),
             "fc_expr": r.format_constraints_expression,
-            "hints": tuple(int(k) for k in re.findall(r"H(\d+)", r.hints or ""))}
+            "hints": tuple(int(k) for k in re.findall(r"H(\d+)", r.hints or "")), "hint_text": r.hints}
 
 
 def tree_entry_point(expr, asg):
@@ -522,6 +522,60 @@ async def check_laws(expr, asg, tree, top, got, acc, case, rng):
             if g4["err"] is not None or g4["outcome"] != base:
                 acc.v(f"definite-is-stable: '{expr}' -> {base} under {asg} but {g4.get('outcome', g4['err'])} under the refinement {a2}",
                       dict(case, law="refine", refined=a2))
+
+
+def render_htx(x):
+    """hint wording AST of Eval.tla -> the text HintExpressionBuilder produces from the hint texts H<key>"""
+    import ahb
+    if x[0] == "none":
+        return None
+    if x[0] == "h":
+        return ahb.hint_text(x[1])
+    l, r = render_htx(x[1]), render_htx(x[2])
+    return {"und": f"{l} und {r}", "oder": f"{l} oder {r}", "entweder": f"Entweder ({l}) oder ({r})"}[x[0]]
+
+
+def _hint_worker(args):
+    dump, shard, nshards, sd = args
+    import ahb
+    ahb.configure()
+    out = {"n": 0, "agree": 0, "dev": []}
+
+    async def go():
+        idx = -1
+        for st in dump_states(dump, shard, nshards):
+            idx += 1
+            if not relevant(st) or st["err"] != "nil":
+                continue
+            set_keymap(None)
+            tree = st["trees"][0]
+            rng = random.Random(sd * 7919 + idx * nshards + shard)
+            expr = render(tree, rng)
+            got = await eval_real(expr, asg_of(st))
+            if got["err"]:
+                continue
+            out["n"] += 1
+            exp = render_htx(st["stack"][0]["htx"])
+            if got["hint_text"] == exp:
+                out["agree"] += 1
+            elif len(out["dev"]) < 3:
+                out["dev"].append({"expr": expr, "asg": asg_of(st), "specification": exp, "code": got["hint_text"]})
+
+    asyncio.run(go())
+    return out
+
+
+def hint_wording_conformance(work: Work, max_leaves=3):
+    """beyond the listed properties (./check-extras): the wording of the collected hints ("X und Y", "X oder Y", "Entweder (X) oder (Y)") as modelled
+    by the htx field of Eval.tla's nodes against the real transformer, for every program up to max_leaves leaves over two hint keys"""
+    cfg = write_cfg(work, "hints.cfg", max_leaves, False, ["TypeOK", "HintTextCarriesTheHints", "MachineAgreesWithDen"], rc=(1,), hints=(501, 502), fcs=(901,))
+    dump = work.path("hints.dump")
+    t = run_tlc("Eval", cfg, work, dump=dump)
+    with mp.get_context("fork").Pool(16) as pool:
+        outs = pool.map(_hint_worker, [(str(dump), i, 16, seed()) for i in range(16)])
+    dump.unlink()
+    dev = [d for o in outs for d in o["dev"]]
+    return {"module": "Eval.tla (htx)", "states": t["states"], "evaluations": sum(o["n"] for o in outs), "agree": sum(o["agree"] for o in outs), "deviations": dev[:3]}
 
 
 def _tuplify(x):
